@@ -411,6 +411,10 @@ def families(tier):
         fams.append(('pred-n%d' % n, M, 'fam_predicates', {'n': n}))
     for n in (1, 2, 3):
         fams.append(('len-n%d' % n, M, 'fam_length_T0T1', {'n': n}))
+    # start / end / T2t / point after in-place replacement of segments (negative indices, slices): shared with C16
+    from .c16 import ops_alphabet
+    ops = [o for o in ops_alphabet() if o[0] in ('setitem', 'setslice', 'insert', 'delitem')]
+    fams.append(('after-mutation', 'vf.props.c16', 'fam_path_history', {'k': 1, 'first_ops': ops, 'prequery': True}))
     fams.append(('fp-n3', M, 'fam_fp_totality', {'n': 3, 'timeout_s': 150 if tier == 'quick' else 900}))
     if tier == 'thorough':
         fams.append(('fp-n2', M, 'fam_fp_totality', {'n': 2, 'timeout_s': 900}))
